@@ -393,6 +393,9 @@ func (e *Env) doWFaults(op *Op) {
 		if extra {
 			modes = []string{"fail"}
 		}
+		if op.Tail > 0 {
+			modes = []string{"close", "fail"} // the tail of a big file (doc-value location table, field index, footer)
+		}
 		for _, mode := range modes {
 			outcomes := [][]interface{}{}
 			step := 1
@@ -421,7 +424,11 @@ func (e *Env) doWFaults(op *Op) {
 					step = s // a dozen offsets are enough for the second call
 				}
 			}
-			for k := 0; k <= L+1+step; k += step {
+			k0 := 0
+			if op.Tail > 0 && L > op.Tail {
+				k0 = L - op.Tail
+			}
+			for k := k0; k <= L+1+step; k += step {
 				w := &faultWriter{once: -1, limit: -1, closeAt: -1, ch: make(chan struct{}), eof: (k/step)%3 == 1}
 				if mode == "fail" || mode == "retry" || mode == "failsync" {
 					w.limit = k
